@@ -157,6 +157,7 @@ def _write_evidence(pid, spec, tier, seed, ctx: Ctx, results: Dict[str, RuleResu
                       **({"reason": r.reason} if r.status == UNDECIDED else {})} for n, r in results.items()},
         "skipped_rules": [{"rule": n, "reason": r.reason} for n, r in results.items() if r.status == UNDECIDED],
         "known_findings_reported": [f.key for f, _ in known_hit],
+        "renamed_helpers_read_under_their_usual_name": dict(getattr(ctx.P, "roles", {})),
         "new_violations": [f.to_json() for f in new],
         "modules_analysed": len(ctx.P.modules),
         "classes_indexed": len(ctx.P.classes),
